@@ -12,7 +12,11 @@ prop("C07", "exploration",
      "side of each other; the rest stays on whole seconds), the window being start <= now < expiry on the exact instants), connect as (user, key) (key-set probe + decision sequence of checkAuthorization with the real "
      "AuthorizeKey / AuthorizeKeyAuthGrant; the hopSession is built exactly as checkAuthorization leaves it), exec request on an "
      "admitted session through the real checkCmd (shell flag, or command text equal / prefix / suffix / extra arguments / case variant / "
-     "trailing, leading, inner blank / empty / trailing NUL relative to a granted text; or a local / remote port-forward request through "
+     "trailing, leading, inner blank / empty / trailing NUL relative to a granted text; grant and request texts also AT AND AROUND THE "
+     "STRING-LENGTH LIMIT of the protocol (common.MaxStringLen = 255): every base command extended by a position-determined filler to exactly "
+     "254, 255, 256 or 300 bytes - so these texts are proper prefixes of each other - before the variant is applied; a request takes base and "
+     "length of a grant drawn earlier with a variant (request = granted text + suffix / minus its last byte) or the same base at another "
+     "length (request longer than the grant, or grant longer than the request); the model compares whole texts; or a local / remote port-forward request through "
      "the real checkPF), advance the clock by 0..10 s (+ 0..999 ms). Oracle after "
      "every step against a multiset model: connect admitted => grants for exactly (user, key) are stored, the session receives "
      "exactly those, a second admission right afterwards fails, the key leaves the transport key set once no stored grant names it; "
@@ -31,7 +35,13 @@ prop("C07", "exploration",
      "255 besides the defined 4 = local and 5 = remote) and network-type bytes (defined 1..3, undefined 0, 4, 255; tcp / udp types with an "
      "address that is not host:port) - confirmed only if the direction is one the protocol defines AND an effective unused grant of exactly "
      "that type matches -, grant issuing for itself, port-forward DATA tubes (reliable or unreliable, "
-     "written to; after a refused control request, after a granted one, or without any), clock steps between requests AND between opening "
+     "written to; after a refused control request, after a granted one, or without any), exec requests with command texts of 254 / 255 / 256 / 300 bytes "
+     "against command grants whose text has 254 or 255 bytes (the longest an intent can carry on the wire; request = granted text as it is, plus a "
+     "suffix, minus a byte, or the longer text starting with it), LOCAL forwarding requests to an address the server CANNOT REACH (unix path in a "
+     "directory that does not exist, path that does not exist, socket file nobody listens on - the dial fails at once), two thirds of them followed "
+     "by further forwarding requests (local to the reachable target, remote) in the same session - the model keeps the grant of a forwarding that it "
+     "authorized and that failed on the dial as unused (the permissive reading of an only-if) and goes on judging: whatever is confirmed afterwards "
+     "still needs a matching, effective, unused grant, and the target may be connected to only after a confirmed local forwarding -, clock steps between requests AND between opening "
      "the tubes of a request and sending its body (0 / 12 / 40 s, so that a grant expires or becomes effective in between: the model judges "
      "at the moment the body is sent); the forwarding target is a unix socket of the harness, one per case, whose accepted connections are "
      "counted synchronously after every request: the server may connect to it only once a local forwarding was authorized in this session "
